@@ -1,13 +1,31 @@
 (* C04 — honest issue-hold-present-verify flows always verify.
    Property theorems only; every proof is `exact <lemma>`. PARTIAL: see C04_statement. *)
 From Coq Require Import List String ZArith NArith Bool.
-From AV Require Import Model.VTypes Model.CL Model.VCfg Model.Prover Model.PProps Proofs.C04Proofs.
+From AV Require Import Model.VTypes Model.CL Model.VerifierLegacy Model.VCfg Model.Prover Model.PProps Proofs.C04Proofs Proofs.C04F10.
 Import ListNotations.
 
 (* the full statement, for both formats (composition of the prover and verifier models over every
-   honest case). NOT proved as a whole: its CL layer is C04_sub_proof_verifies below, the other
-   stages are decided per case by the correspondence run on every check. *)
+   honest case). NOT proved as a whole: the legacy format is proved end to end for the class of
+   C04_legacy_plain below; restrictions, non-revocation intervals and the W3C format are decided per
+   case by the correspondence run on every check (their CL layer is C04_sub_proof_verifies_partial). *)
 Definition C04_statement : Prop := c04_statement.
+
+(* END TO END, legacy format, for EVERY case of the class [plain_b] (any number of correctly issued
+   credentials of non-revocable definitions held under the holder's link secret; single attributes,
+   attribute groups, predicates, unrevealed and self-attested referents; attribute names in any case /
+   spacing; unused credentials passed along; no restrictions and no non-revocation intervals):
+   whatever presentation the prover model builds, the verifier model accepts it - through all its
+   stages (identifier resolution, referent comparison, value comparison under the shared
+   normalisation, restriction stage, per-credential loop with predicate and schema checks and
+   sub-proof registration, length guard, CL verification) *)
+Theorem C04_legacy_plain : forall c P, plain_b c = true ->
+  create_legacy pcfg_fixed (pc_req c) (pc_cx c) (pc_link c) (pc_sel c) (pc_self c) = ROk P ->
+  verify_legacy cfg_fixed (pc_req c) P (pc_cx c) = Accept.
+Proof. exact c04_legacy_plain_b. Qed.
+(* the class is inhabited by a two-credential case with every kind of referent, which the prover model serves *)
+Theorem C04_plain_nonvacuous :
+  plain_b e_case = true /\ exists P, create_legacy pcfg_fixed (pc_req e_case) (pc_cx e_case) (pc_link e_case) (pc_sel e_case) (pc_self e_case) = ROk P.
+Proof. exact c04_plain_nonvacuous. Qed.
 
 (* CL layer, for EVERY credential provenance, fed values, schema attribute set, revealed names,
    predicates, revocation part, link secret and position: a sub-proof the ideal prover builds from
@@ -44,6 +62,8 @@ Theorem C04_fixed_search_on_witness :
   honest_w3c cfg_fixed pcfg_fixed s_case = true /\ flow_w3c cfg_fixed pcfg_fixed s_case = Some Accept.
 Proof. exact c04_fixed_search_on_witness. Qed.
 
+Print Assumptions C04_legacy_plain.
+Print Assumptions C04_plain_nonvacuous.
 Print Assumptions C04_sub_proof_verifies_partial.
 Print Assumptions C04_unfixed_search_refuted.
 Print Assumptions C04_unfixed_refuted.
